@@ -92,3 +92,19 @@ Example C17_split_lost_the_context_before_the_fix :
   rules_with_ctx b1 ctx0 ++ rules_with_ctx b2 ctx0 <> rules_with_ctx (before ++ after) ctx0.
 Proof. exact split_v0_loses_the_context. Qed.
 Print Assumptions C17_split_lost_the_context_before_the_fix.
+
+(* ---- the same statements about the code AS TRANSLATED from /repo's current source (Generated/FeaGen.v: BaseFeatureWriter._contextAt;
+   Fea/ContextTied.v proves the translation equal to the model) ---- *)
+From U2F Require Import Generated.FeaGen Fea.ContextTied.
+
+Theorem C17_translated_contextAt_is_the_model : forall l, tr_context_at l = context_at l.
+Proof. exact translated_context_at_is_the_model. Qed.
+Print Assumptions C17_translated_contextAt_is_the_model.
+
+Theorem C17_code_context_statements_recreate_the_context : forall l, ctx_after (tr_context_at l) ctx0 = ctx_after l ctx0.
+Proof. exact code_context_statements_recreate_the_context. Qed.
+Print Assumptions C17_code_context_statements_recreate_the_context.
+
+Theorem C17_code_context_statements_add_no_rule : forall l c, rules_with_ctx (tr_context_at l) c = [].
+Proof. exact code_context_statements_add_no_rule. Qed.
+Print Assumptions C17_code_context_statements_add_no_rule.
